@@ -381,6 +381,23 @@ func lockTimeMain(args []string) {
 			time.Sleep(250 * time.Millisecond) // five periods after the failure: the following beats have landed
 			other := filesystem.NewRemoteLockFile(vfs, id, tmp3)
 			stale, taken := 0, 0
+			// scheduler latency reference (as for the live holds): a starved machine is outside the hypothesis
+			var hiccupLat int64
+			stopLat := make(chan struct{})
+			go func() {
+				for {
+					select {
+					case <-stopLat:
+						return
+					default:
+					}
+					t := time.Now()
+					time.Sleep(time.Millisecond)
+					if over := int64(time.Since(t) - time.Millisecond); over > atomic.LoadInt64(&hiccupLat) {
+						atomic.StoreInt64(&hiccupLat, over)
+					}
+				}
+			}()
 			for t1 := time.Now(); time.Since(t1) < 400*time.Millisecond; {
 				if other.IsStale() {
 					stale++
@@ -394,8 +411,11 @@ func lockTimeMain(args []string) {
 			}
 			rep.Eval(caseTxt, true)
 			rep.Hist("live:one-failed-heartbeat-write")
+			close(stopLat)
 			if ffs.failedAt.Load() == 0 {
 				rep.Hist("live:one-failed-heartbeat-write:failure-not-injected")
+			} else if (stale > 0 || taken > 0) && 2*time.Duration(atomic.LoadInt64(&hiccupLat)) >= 52*time.Millisecond {
+				rep.Hist("live:outside-hypothesis(latency)")
 			} else if stale > 0 || taken > 0 {
 				rep.Fail(hx.Failure{Kind: "impl-violates-property", Key: "live-lock-reported-stale:after-one-failed-heartbeat-write", Case: caseTxt,
 					Expected: "the holder is alive and its context not cancelled: the heart-beat goes on, never stale / taken over", Observed: fmt.Sprintf("stale=%d takenOver=%d in the 400 ms starting 250 ms after the failed write", stale, taken)})
